@@ -172,6 +172,7 @@ def noise_world(delta, d):
 def pipeline_case(args):
     strategy, preset, d, scratch = args[:4]
     mirror = args[4] if len(args) > 4 else 0      # 1: the whole world reverse-complemented ('-' strand gene, polyT heads)
+    delta_opt = args[5] if len(args) > 5 else None    # explicit --delta (overrides the preset's tolerance; 0 = exact comparison)
     from vlib import syn, run
     delta = PRESETS[preset]
     flags = STRATEGIES[strategy]
@@ -206,7 +207,9 @@ def pipeline_case(args):
                 rd["clip_right"] = "A" * 12
             reads[nm] = (rd, devs, blocks)
     w["reads"] = [v[0] for v in reads.values()]
-    dd = os.path.join(scratch, "c14_%s_%s_%d_%d" % (strategy, preset, d, mirror))
+    if delta_opt is not None:
+        delta = delta_opt          # the reads keep the jitter of the preset's menu (+-4/6 and beyond); the tolerance is the explicit one
+    dd = os.path.join(scratch, "c14_%s_%s_%d_%d_%s" % (strategy, preset, d, mirror, delta_opt))
     shutil.rmtree(dd, ignore_errors=True)
     if mirror:
         from props import c11
@@ -216,12 +219,13 @@ def pipeline_case(args):
         paths = syn.materialise(w, dd)
     out = os.path.join(dd, "out")
     rc = run.run_isoquant(run.base_argv(paths, out, extra=["--no_model_construction", "--matching_strategy", preset,
-                                                          "--splice_correction_strategy", strategy]), paths["home"], os.path.join(dd, "o.txt"))
+                                                          "--splice_correction_strategy", strategy] +
+                                         (["--delta", str(delta_opt)] if delta_opt is not None else [])), paths["home"], os.path.join(dd, "o.txt"))
     errs = []
     if rc != 0:
         errs.append(("run-failed", "exit %d: %s" % (rc, open(os.path.join(dd, "o.txt")).read()[-300:])))
         shutil.rmtree(dd, ignore_errors=True)
-        return (strategy, preset, mirror), errs, 0, 0
+        return (strategy, preset, mirror, delta_opt), errs, 0, 0
     bed = run.parse_bed(run.find(out, "OUT", ".corrected_reads.bed"))
     if mirror:
         # back to the coordinates of the unmirrored world (validity of the raw record is checked on the record as printed)
@@ -261,11 +265,14 @@ def pipeline_case(args):
         iso_l = set(i[0] for t in assigned.get(nm, ()) for i in iso_introns[t])
         iso_r = set(i[1] for t in assigned.get(nm, ()) for i in iso_introns[t])
         tol = max(delta, 60)
+        jitter_only = all(x[0] == "jitter" for x in devs) and not flags[1]
+        if jitter_only:
+            tol = delta           # nothing but splice-site jitter and no intron-shift correction: only the fuzzy-junction correction applies
         for i in range(len(cb) - 1):
             l, r = cb[i][1] + 1, cb[i + 1][0] - 1
             for site, own, iso, ann, side in ((l, own_l, iso_l, annotated_sites_l, "left"), (r, own_r, iso_r, annotated_sites_r, "right")):
-                if site in own or site in iso:
-                    continue
+                if site in own or (site in iso and not (jitter_only and len(cb) == len(blocks))):
+                    continue           # (an intron of the assigned isoform may be inserted / restored, not when nothing but jitter is present)
                 if site in ann and any(abs(site - o) <= tol for o in own):
                     continue
                 errs.append(("foreign-splice-site:" + kinds, "read %s %s (input %s): corrected %s site %d is neither the read's own, nor of "
@@ -275,7 +282,7 @@ def pipeline_case(args):
     if missing:
         errs.append(("read-missing", "%d reads missing from the BED, e.g. %s %s" % (len(missing), sorted(missing)[0], list(reads[sorted(missing)[0]][1]))))
     shutil.rmtree(dd, ignore_errors=True)
-    return (strategy, preset, mirror), errs, len(bed), changed
+    return (strategy, preset, mirror, delta_opt), errs, len(bed), changed
 
 
 # ------------------------------------------------------------------------------------------------ B: Illumina corrector
@@ -336,14 +343,18 @@ def run(ctx):
     quick = ctx.tier == "quick"
     d = 1 if quick else 2
     jobs = [(s, p, d, ctx.scratch, m) for s in STRATEGIES for p in PRESETS for m in (0, 1)]
+    # explicit --delta (0 = exact, 2, 9) on top of the default preset
+    jobs += [(s, "default", d, ctx.scratch, 0, dv) for s in STRATEGIES for dv in ((0, 9) if quick else (0, 2, 9))]
     nbed = nchanged = 0
     for key, errs, nb, ch in core.pmap(pipeline_case, jobs):
         nbed += nb
         nchanged += ch
         for k, msg in errs:
-            ctx.violation("%s:%s%s" % (k, key[0], ":mirrored" if key[2] else ""), "strategy %s preset %s%s: %s" %
-                          (key[0], key[1], " (reverse-complemented world, coordinates mapped back)" if key[2] else "", msg),
-                          {"strategy": key[0], "preset": key[1], "d": d, "mirror": key[2]})
+            ctx.violation("%s:%s%s%s" % (k, key[0], ":mirrored" if key[2] else "", ":delta-option" if key[3] is not None else ""),
+                          "strategy %s preset %s%s%s: %s" %
+                          (key[0], key[1], " (reverse-complemented world, coordinates mapped back)" if key[2] else "",
+                           " --delta %s" % key[3] if key[3] is not None else "", msg),
+                          {"strategy": key[0], "preset": key[1], "d": d, "mirror": key[2], "delta": key[3]})
     ctx.note("A: %d pipeline runs, %d BED records checked, %d of them changed by correction" % (len(jobs), nbed, nchanged))
     reads, menu = illumina_menu()
     maxk = 3 if quick else 5
@@ -374,5 +385,5 @@ def run(ctx):
 def replay(ctx, c):
     if "exons" in c:
         return "IlluminaExonCorrector.from_data(%r).correct_exons(%r)" % (c["short_introns"], c["exons"])
-    key, errs, nb, ch = pipeline_case((c["strategy"], c["preset"], c.get("d", 1), ctx.scratch, c.get("mirror", 0)))
+    key, errs, nb, ch = pipeline_case((c["strategy"], c["preset"], c.get("d", 1), ctx.scratch, c.get("mirror", 0), c.get("delta")))
     return errs[0][1] if errs else None
